@@ -788,6 +788,15 @@ func evalBoolUnder(v ssa.Value, as []assumption, reach map[*ssa.BasicBlock]bool,
 			return a.val, true
 		}
 	}
+	if op, x, y, ok := cmpFact(fact{V: v, Pol: true}); ok {
+		for _, a := range as {
+			if a.cmp != nil {
+				if applies, equal := a.cmp(op, x, y); applies {
+					return equal == a.val, true
+				}
+			}
+		}
+	}
 	switch x := v.(type) {
 	case *ssa.UnOp:
 		if x.Op == token.NOT {
